@@ -47,6 +47,9 @@ def gen_dname(rng, used, auto_bat=False):
     for _ in range(300):
         if auto_bat and rng.random() < 0.05:
             name, ext = rng.choice(["auto", "AUTO", "Auto"]), rng.choice(["bat", "BAT"])
+        elif rng.random() < 0.06:
+            # whole names that spell an extension or a special name of the documentation, with any extension or none
+            name, ext = rng.choice(["bas", "BAS", "bin", "Bin", "txt", "TXT", "bat", "auto", "AUTO", "dat", "a"]), rng.choice(["", "", "", "bas", "bat", "txt", "a"])
         else:
             n = rng.choice([1, 2, 3, 5, 7, 8, 8])
             name = "".join(rng.choice(DNAME) for _ in range(n))
